@@ -160,6 +160,10 @@ def jobs(tier):
         # lumped losses off the solver grid (one inside the first solver step): non-uniform integration steps
         js.append(dict(name=f'H5c:raman_on_zero_coupling:{method}:order{order}:offgrid_lumped', fn='h_raman_lumped',
                        params=dict(method=method, order=order, pumps=False, positions=(0.02, 12.5)), cost=20))
+    # accumulated CD / PMD / PDL / latency stay attached to their carrier when a spectrum is (re)built from unsorted pieces
+    for via in ('init', 'add'):
+        js.append(dict(name=f'H5e:accumulated_values_follow_carrier:{via}:k3', module='harness.c01', fn='h_construct_interleaved',
+                       params=dict(k=3, via=via), cost=10))
     # latency adds linearly over the spans auto-design creates from a long fibre (sym length; shared with C08)
     js.append(dict(name='H5d:latency_after_split', module='harness.c08', fn='h_split', params=dict(max_km=150, padding=10), cost=30,
                    witness_every=1))
